@@ -1141,9 +1141,11 @@ def sun_compact(U, rtol=1e-12, atol=1e-12):
 
     # if Unitary, factorize into phase times Special Unitary
     # (complex arithmetic throughout: a real orthogonal matrix with determinant -1 has a complex n-th root)
-    SU = np.array(U, dtype=np.complex128)
+    # The determinant is always divided out: the SU(2) factors are extracted from matrices that have
+    # determinant 1 to 1e-10, whatever tolerance the caller uses for the unitarity test. A global
+    # phase is only reported when the determinant differs from 1 at that tolerance.
+    SU = np.array(U, dtype=np.complex128) * complex(det) ** (-1 / n)
     if not np.isclose(det, 1, rtol=rtol, atol=atol):
-        SU *= complex(det) ** (-1 / n)
         global_phase = np.angle(det)
 
     # Decompose the matrix
@@ -1382,6 +1384,10 @@ def _su3_parameters(U, rtol=1e-12, atol=1e-12):
     # Grab the entries of the first row
     x, y, z = U[0, 0], U[1, 0], U[2, 0]
 
+    # What is left of the matrix after the staircases has determinant 1 only up to the phases that the
+    # special cases were allowed to neglect, i.e. up to the caller's tolerance.
+    rest_tol = max(1e-10, 100 * atol)
+
     # The special cases below apply when the rest of the first column vanishes. This has
     # to be tested on y and z themselves: |x| within 1e-5 of 1 still leaves entries of
     # size sqrt(1 - |x|^2) ~ 4e-3 that must not be dropped.
@@ -1391,7 +1397,7 @@ def _su3_parameters(U, rtol=1e-12, atol=1e-12):
     # already have an SU(2) transformation embedded in an SU(3) transform,
     # so all we need to do is get the parameters of that SU(2) transform.
     if trivial_column and np.isclose(x, 1, rtol, atol):
-        params = [[0.0, 0.0, 0.0], [0.0, 0.0, 0.0], _su2_parameters(U[1:, 1:])]
+        params = [[0.0, 0.0, 0.0], [0.0, 0.0, 0.0], _su2_parameters(U[1:, 1:], tol=rest_tol)]
     # Another special case: the modulus of the top left element is 1.
     # Then we need to do a transformation on modes 1 and 2 to make the top
     # entry 1, then an SU(2) transformation on modes 2 and 3 with what's left.
@@ -1409,7 +1415,7 @@ def _su3_parameters(U, rtol=1e-12, atol=1e-12):
         params = [
             [0.0, 0.0, 0.0],
             _su2_parameters(phase_su2.conj().T),
-            _su2_parameters(remainder_su2),
+            _su2_parameters(remainder_su2, tol=rest_tol),
         ]
 
     else:
@@ -1429,7 +1435,7 @@ def _su3_parameters(U, rtol=1e-12, atol=1e-12):
 
         # SU_23(3) - again three parameters
         right = middle.conj().T @ left.conj().T @ U
-        right_params = _su2_parameters(right[1:, 1:])
+        right_params = _su2_parameters(right[1:, 1:], tol=rest_tol)
 
         params = [left_params, middle_params, right_params]
 
